@@ -27,7 +27,7 @@ from . import c09_census
 
 THEOREMS = ["census_audited", "audited_admissible", "seed_irrelevant", "tmp_unprinted", "noninterference",
             "noninterference_needs_guard", "order_equivariant", "key_order_equivariant", "retrace_idempotent",
-            "rebuild_hits", "consumers_perm_invariant"]
+            "rebuild_hits", "consumers_perm_invariant", "suffix_clash_witness"]
 SEARCHED = [
     "text identical across PYTHONHASHSEED values and processes (CPython hashing, id(), allocation order: not modelled)",
     "text independent of request order / repetitions / other contexts, targets, functions used earlier in the process",
@@ -107,6 +107,7 @@ def census_diff(entries):
 # ----------------------------------------------------------------------------- history generator (correspondence)
 
 NAMES = ["r", "x", "y", "mx", "a", "s", "_r_0_", "__hypot_1_r_0_", "_x_0_", "add_x_y", "abs_x", "constant_f1", "z", "sq"]
+FEW = ["r", "x", "_r_0_", "__f_1_r_0_"]
 SYMS = ["x", "y", "z", "w", "r"]
 TYPS = ["float", "complex", "float32", "float64", "boolean"]
 FUNCS = ["hypot", "square", "f", "a_1", "real_asin"]
@@ -145,10 +146,11 @@ def gen_history(rng, size, style):
                 k = rng.choice(KINDS)
                 out.append(["node", k, [rng.randrange(1 << 16) for _ in range(3)]])
             elif r < 0.47 + wn:
+                pool = FEW if style == "names" else NAMES
                 if rng.random() < 0.55:
-                    out.append(["name", rng.randrange(1 << 16), rng.choice(NAMES)])
+                    out.append(["name", rng.randrange(1 << 16), rng.choice(pool)])
                 else:
-                    out.append(["autoblock", [[rng.randrange(1 << 16), rng.choice(NAMES)] for _ in range(rng.randint(1, 4))]])
+                    out.append(["autoblock", [[rng.randrange(1 << 16), rng.choice(pool)] for _ in range(rng.randint(1, 4))]])
             elif r < 0.47 + wn + wc and depth < 3:
                 out.append(["call", rng.choice(FUNCS), block(depth + 1)])
             elif r < 0.47 + wn + wc + 0.04:
@@ -444,6 +446,28 @@ def search(ctx, reqs, broken_items, heavy):
         for it in broken_items[1:]:
             it["has_failing_input"] = True
     ctx.notes["digest_differences"] = len(found)
+    probe_dtype_index(ctx, sorted({str(j["hashseed"]) for j in jobs} | {str(k) for k in range(1, 9)}))
+
+
+def probe_dtype_index(ctx, seeds):
+    """Directed clause for the audited `listedFinding` entry (unsorted iteration over a set of expression keys in
+    Context.dtype_index.find_dtype_index): a user-level algorithm, lax target, text compared across hash seeds."""
+    res = pool_map(lambda s: worker(dict(mode="probe_dtype_index"), hashseed=s), seeds)
+    texts = {}
+    for s, (r, err) in zip(seeds, res):
+        if r is None:
+            ctx.count("probe_dtype_index:worker-failed")
+            continue
+        ctx.case(key=f"dtype_index:{s}", nontrivial=not r["text"].startswith("EXC:"))
+        texts.setdefault(r["text"], []).append(s)
+    ctx.notes["probe_dtype_index_distinct_texts"] = len(texts)
+    if len(texts) > 1:
+        (ta, sa), (tb, sb) = list(texts.items())[:2]
+        d = udiff(ta, tb, f"PYTHONHASHSEED={sa[0]}", f"PYTHONHASHSEED={sb[0]}")
+        ctx.violation("text-differs:hashseed:dtype_index-set-iteration(Context.dtype_index.find_dtype_index)",
+                      "lax text of a user algorithm that calls Context.dtype_index after _assume_same_dtype depends on PYTHONHASHSEED "
+                      "(find_dtype_index iterates a set of expression keys and returns the first cached index it meets)",
+                      dict(probe="dtype_index", seeds=[sa[0], sb[0]], diff=d))
 
 
 # ----------------------------------------------------------------------------- run / replay
@@ -477,6 +501,14 @@ def run(ctx):
 
 def replay(ctx, obj):
     rp = obj.get("replay") or {}
+    if rp.get("probe") == "dtype_index":
+        a, _ = worker(dict(mode="probe_dtype_index"), hashseed=rp["seeds"][0])
+        b, _ = worker(dict(mode="probe_dtype_index"), hashseed=rp["seeds"][1])
+        if a is None or b is None or a["text"] == b["text"]:
+            print("texts are identical now" if a and b else "worker failed")
+            return 0 if a and b else 1
+        print(udiff(a["text"], b["text"], f"PYTHONHASHSEED={rp['seeds'][0]}", f"PYTHONHASHSEED={rp['seeds'][1]}"))
+        return 1
     if "variant" not in rp:
         print("replay names an obligation without failing input:", obj.get("obligation"))
         print(obj.get("detail", "")[:2000])
